@@ -166,6 +166,9 @@ func recipeFor(p *Program, o *Obligation) *replayRecipe {
 	switch key {
 	case "redis.(*Server).handleArrayMessage", "redis.(*Server).executeCommand":
 		r.command = "" // first element is the command itself
+		if strings.Contains(o.Name, "C20") || strings.Contains(o.Name, "C08") {
+			r.password = true // the unauthorized path is one of the request outcomes
+		}
 		return r
 	case "redis.(*Server).receive", "redis.(*Server).handleMessage", "redis.(*Server).responseMessage":
 		r.arrTerm = ""
@@ -488,6 +491,9 @@ func scenarioPortfolio(password bool) [][]string {
 		{respCmd("LPOP", "k", "abc"), respCmd("RPOP", "k", "1.5"), respCmd("LPOP", "k", "99999999999999999999"), respCmd("LINDEX", "k", "x"), respCmd("PING")},
 		{respCmd("ZREVRANGEBYSCORE", "z", "(3", "1"), respCmd("ZREVRANGEBYSCORE", "z", "3", "(1"), respCmd("ZRANGEBYSCORE", "z", "(1", "3"), respCmd("ZRANGE", "z", "(1", "3", "BYSCORE")},
 		{respCmd("DECRBY", "k", "-9223372036854775808"), respCmd("INCRBY", "k", "1"), respCmd("DECR", "k"), respCmd("APPEND", "k", "x"), respCmd("MGET", "a", "b", "c", "d")},
+		{respCmd("SELECT", "5"), respCmd("GET", "a"), respCmd("SELECT", "abc"), respCmd("GET", "b"), respCmd("SELECT"), respCmd("GET", "c"), respCmd("SELECT", "2"), respCmd("GET", "d")},
+		{respCmd("set", "k", "v", "ex", "10"), respCmd("SET", "k", "v", "Px", "1500"), respCmd("set", "k", "v", "nx"), respCmd("SET", "k", "v", "KeepTTL")},
+		{respCmd("ZADD", "z", "1", "a", "2"), respCmd("ZADD", "z", "nan", "m"), respCmd("ZINCRBY", "z", "nan", "m"), respCmd("GET", "k")},
 		{respCmd("foo\rX+OK\rX"), respCmd("PING")},
 		{respCmd("x\r\n+OK"), respCmd("x\ny"), respCmd("CONFIG", "a\rb")},
 	}
